@@ -223,6 +223,7 @@ type connCaller struct {
 	ctx      context.Context
 	cancel   context.CancelFunc
 	answered bool
+	req      pdu.Responsable // the request value of a Submit chain's first call (later calls of the goroutine re-submit it)
 }
 
 type connRun struct {
@@ -367,7 +368,7 @@ func (r *connRun) startCaller(i int) {
 		var rs int32
 		switch c.kind {
 		case "s":
-			resp, err := r.conn.Submit(c.ctx, callerRequest(c.seq))
+			resp, err := r.conn.Submit(c.ctx, r.requestOf(i))
 			if err != nil {
 				res = connErrClass(err)
 			} else {
@@ -413,6 +414,26 @@ func (r *connRun) startCaller(i int) {
 		}
 		time.Sleep(500 * time.Microsecond)
 	}
+}
+
+// chainRoot: the first Submit of the run of consecutive Submit calls of one goroutine that call i belongs to.
+func (r *connRun) chainRoot(i int) int {
+	for r.callers[i].after >= 0 && r.callers[r.callers[i].after].kind == "s" && r.callers[i].kind == "s" {
+		i = r.callers[i].after
+	}
+	return i
+}
+
+// requestOf: a goroutine that submits again re-submits the SAME request value (as a retry loop does): Submit has to stamp
+// it with the next sequence number whatever it carried before.
+func (r *connRun) requestOf(i int) pdu.Responsable {
+	root := r.callers[r.chainRoot(i)]
+	r.mu.Lock()
+	defer r.mu.Unlock()
+	if root.req == nil {
+		root.req = callerRequest(root.seq)
+	}
+	return root.req
 }
 
 // callerRequest: what a Submit caller sends.  One in three carries a body (so that a frame is more than its
@@ -717,7 +738,7 @@ func opConn(args []string) (out string) {
 		if who >= 0 {
 			switch r.callers[who].kind {
 			case "s":
-				q := callerRequest(seq)
+				q := callerRequest(r.callers[r.chainRoot(who)].seq) // a fresh value of the type that call sent
 				pdu.WriteSequence(q, seq)
 				want = frameOf(q)
 			case "n":
@@ -753,6 +774,19 @@ func opConn(args []string) (out string) {
 					fail(fmt.Sprintf("C05:response-delivered-on-PDU caller=%d", who))
 				}
 			}
+		}
+	}
+	for i, c := range r.callers {
+		sameSeq := 0
+		for _, o := range r.callers {
+			if o.seq == c.seq {
+				sameSeq++
+			}
+		}
+		if _, held := r.tr.gates[c.seq]; held && c.returned && c.seq > 0 && sameSeq == 1 {
+			// the call has returned to its goroutine while the transport still holds its Write: its octets may yet go out
+			// behind the goroutine's next call, or after a call that reported failure
+			fail(fmt.Sprintf("C14:call-returned-while-its-write-is-in-flight caller=%d", i))
 		}
 	}
 	for i, c := range r.callers {
@@ -1304,6 +1338,17 @@ func init() {
 		}
 	}
 	gens["C14"] = func(r *gen.Rng, tier string, emit func(string)) {
+		// a Submit whose context ends while its Write is still held has NOT returned (its frame may yet go out): the same
+		// goroutine's next call must not start, let alone overtake it
+		for _, sc := range []string{
+			"conn s:5:- sub0 dl0",
+			"conn s:5:-,n:7:0 sub0 dl0 sub1",
+			"conn s:4:-,s:8:0 sub0 dl0 sub1",
+			"conn s:5:-,n:7:0 sub0 dl0 sub1 wret0 sub1 wret1",
+			"conn s:4:-,n:9:-,n:7:0 sub0 sub1 dl0 sub2 wret1 wret0 sub2 wret2",
+		} {
+			emit(sc)
+		}
 		for i := 0; i < scale(tier, 200, 1200); i++ {
 			emit(genConnScenario(r, connProfile{submit: r.Range(0, 3), send: r.Range(1, 5), badSeqPct: 25, badPct: 8, teardownPct: 6, events: r.Range(6, 20)}))
 		}
@@ -1498,6 +1543,33 @@ func rawMutatedFrame(r *gen.Rng, seq int32) ([]byte, string) {
 			return f, "ok"
 		}
 		return f, "bad"
+	}
+	if r.Chance(12) {
+		// a valid frame whose LAST optional parameter announces more value octets than the frame holds (at least one is
+		// there): the TLV is cut, the frame is undecodable
+		for {
+			p := r.PDU(randType(r), gen.Representable)
+			v := reflect.ValueOf(p).Elem()
+			has := false
+			k := r.Range(2, 12)
+			for i := 0; i < v.NumField(); i++ {
+				if t, ok := v.Field(i).Addr().Interface().(*pdu.Tags); ok {
+					*t = pdu.Tags{uint16(r.Pick(0x0204, 0x0424, 0x1400, 5)): r.Bytes(k)}
+					has = true
+				}
+			}
+			if !has {
+				continue
+			}
+			v.FieldByName("Header").Set(reflect.ValueOf(pdu.Header{Sequence: seq}))
+			f, cls, _, _ := doMarshal(p)
+			if cls != "nil" || len(f) > 300 {
+				continue
+			}
+			g := append([]byte{}, f[:len(f)-r.Range(1, k-1)]...)
+			putBE32(g, uint32(len(g)))
+			return g, "bad"
+		}
 	}
 	if r.Chance(25) {
 		// a valid frame WITHOUT optional parameters, cut short by 1..3 octets (command_length restated): the mandatory
